@@ -50,10 +50,13 @@ CHECKS.update({
     "C15": dict(
         technique="Lean 4 proof over R on generated formulas (monotonicity, inverses, HasDerivAt, moment integral) + Float correspondence",
         text="Theorems for Weibull / Gumbel / GumbelMin formulas generated from the source: cdf monotone in [0,1), invcdf and cdf mutual "
-             "inverses, pdf = derivative of cdf (HasDerivAt), Weibull raw moments = Gamma(1+k/c) as integrals of the density and the "
-             "reported mean/std/skew/kurt as their textbook combinations, Gumbel median/mode, GumbelMin = mirror of Gumbel for every "
-             "method, invcdf mask skeleton, plotting positions in (0,1) increasing. Gumbel moment constants measured (partial).",
-        note=TB + "Gumbel mean/std/skew/kurt constants validated by quadrature only.",
+             "inverses, pdf = derivative of cdf (HasDerivAt), Weibull raw moments = Gamma(1+k/c) as integrals of the density; the Weibull "
+             "density has mass 1 and the reported mean / std / skewness / kurtosis ARE its mean, sqrt of its variance (proved > 0) and "
+             "its standardised third / fourth central moments (integrals over the support); the Gumbel and GumbelMin densities have "
+             "mass 1 and mean loc +/- gamma*scale (Euler-Mascheroni, from Mathlib's derivative of Gamma at 1), the reported means are "
+             "loc +/- c*scale with |c - 0.5772156649015329| <= 1e-15; Gumbel median/mode, GumbelMin = mirror of Gumbel for every "
+             "method, invcdf mask skeleton, plotting positions in (0,1) increasing. Gumbel std/skew/kurt constants measured (partial).",
+        note=TB + "Gumbel std/skew/kurt constants validated by quadrature only; the literal behind the Gumbel means is compared with numpy.euler_gamma (Mathlib proves only 1/2 < gamma < 2/3).",
         ref="4/C15"),
     "C16": dict(
         technique="Lean 4 proof over R (hockey-stick identity for PWM weights, algebra of generated estimators, estimating equations) + captured-callable correspondence",
@@ -135,14 +138,18 @@ CHECKS.update({
         note=TB + "Aliasing and threads are properties of the CPython runtime: observed, not proved.",
         ref="4/C10"),
     "C11": dict(
-        technique="Lean 4 proof (pipeline model with abstract stages over any ordered field) + exact Rat correspondence with tag-function stages + float search",
+        technique="Lean 4 proof (pipeline model with abstract stages over any ordered field; concrete model of the smoothing and Tukey-taper stages) + exact Rat correspondence with tag-function stages + Float correspondence of smooth / taper / get + float search",
         text="Theorems: a window returns exactly the in-window samples in order; interpolation reproduces nodes, is the linear "
              "interpolant (convex combination) between them, has no value outside the span and always one inside; the step grid "
              "has round((t1-t0)/d)+1 equidistant points from first to last sample with |k-(t1-t0)/d| <= 1/2; no options = "
              "identity; stage order window/resample/taper/filter/smooth with the filter receiving t'[1]-t'[0]; array resampling "
              "returns that array or fails, never with a window; equal lengths; stand-alone resampling succeeds with all new "
-             "times inside the span. Stage functions are patched by non-commuting tags on both sides of the correspondence.",
-        note=TB + "interp1d / linspace / arange / round semantics modelled. Float grids searched (F7 fixed).",
+             "times inside the span. Stage functions are patched by non-commuting tags on both sides of the correspondence. The two "
+             "stages written in qats itself are also modelled concretely and executed against signal.smooth / signal.taper / "
+             "TimeSeries.get: smoothing keeps the length for every window (odd or even), rejects signals not longer than the window, "
+             "keeps a constant level; the tapering stage keeps the length and leaves the flat part of the Tukey window unchanged, "
+             "weights in [0,1]; hence equal lengths of time and data with the code's own stages (get_equal_length_concrete).",
+        note=TB + "interp1d / linspace / arange / round / np.convolve('same') / slice clamping semantics modelled. Float grids searched (F7 fixed). F53 fixed.",
         ref="4/C11"),
     "C14": dict(
         technique="Lean 4 proof (single-pass scan invariant; exact characterisation of global and local maxima over any ordered field) + exhaustive Rat correspondence",
@@ -230,8 +237,8 @@ CHECKS.update({
         technique="Lean 4 proof (effect-trace model of TsDB.export, common-time diagnosis, friendly names, record-level codecs over any ordered field) + exact Rat correspondence (decision, create_common_time, names, observed export trace, codec text/words) + end-to-end export→fromfile round trips",
         text="Theorems: existing target with exist_ok=False → only a raise; every raise is the last effect and nothing before it opens/writes "
              "the target; whatever is written is, per selected series in order and under distinct export-friendly names, exactly "
-             "get(**kwargs) of that series and all written time arrays agree with the first within the final comparison (all "
-             "databases/options); forced common time = create_common_time, inside every span; is_common ⇒ equal arrays for uniform series "
+             "get(**kwargs) of that series, holds at least one sample (an empty window is refused before the target is opened; F52), "
+             "and all written time arrays agree with the first within the final comparison (all databases/options); forced common time = create_common_time, inside every span; is_common ⇒ equal arrays for uniform series "
              "(no options), equal windowed arrays on one lattice (PARTIAL) and one resampling grid for a step (any sampling), with "
              "machine-checked counterexamples off these premises (F9b shape, off-lattice window); key file / direct-access words / ascii "
              "header+rows / pickle frame / h5 start+delta round trips under explicit representability predicates, with counterexamples "
